@@ -30,12 +30,18 @@ def _tid() -> int:
     return me.tid if me is not None else -1
 
 
+def _pos() -> int:
+    s = sched.ACTIVE
+    return len(s.trace) if s is not None else -1
+
+
 class World:
     def __init__(self, backend: str, nproc: int, app_id: str = "w", **conf: Any) -> None:
         env.reset_world()
         tasks.HOOKS.clear()
         self.backend = backend
         self.log: list[tuple] = []
+        self.ops: list[tuple] = []  # (tid, trace position at completion, logical operation name)
         if backend == env.MEM:
             app = env.make_app(env.MEM, app_id=app_id, **conf)
             self.apps = [app] * nproc
@@ -90,6 +96,35 @@ class World:
             return rec
 
         orch._register_new_invocations = wrapped_reg
+        # logical operations (for window signatures): name, thread, position in the schedule trace
+        ops = self.ops
+
+        def logical(obj: Any, attr: str, name_of: Callable[..., str], materialise: bool = False) -> None:
+            orig_fn = getattr(obj, attr)
+
+            def w(*a: Any, **k: Any) -> Any:
+                nm = name_of(*a, **k)
+                try:
+                    r = orig_fn(*a, **k)
+                    if materialise:
+                        r = iter(list(r))
+                finally:
+                    ops.append((_tid(), _pos(), nm))
+                return r
+
+            setattr(obj, attr, w)
+
+        def st_names(sts: Any) -> str:
+            return "+".join(sorted(x.name for x in sts)) if sts else "*"
+
+        logical(orch, "get_existing_invocations",
+                lambda task=None, key_serialized_arguments=None, statuses=None, **_k: f"lookup[{st_names(statuses)}]",
+                materialise=True)
+        logical(orch, "_atomic_status_transition",
+                lambda invocation_id=None, status=None, runner_id=None: f"transition[{status.name}]")
+        logical(orch, "get_invocation_status_record", lambda *a, **k: "status-read")
+        logical(app.broker, "retrieve_invocation", lambda *a, **k: "queue-pop")
+        logical(app.broker, "route_invocation", lambda *a, **k: "queue-push")
 
     def _body(self, what: str, name: str, args: Any) -> None:
         from pynenc import context
@@ -140,3 +175,22 @@ def runner_ctx(rid: str, cls: str = "VfRunner") -> Any:
 
 def successful(log: list[tuple], inv_id: str | None = None) -> list[tuple]:
     return [e for e in log if e[0] == "tr" and e[5] == "ok" and (inv_id is None or e[2] == inv_id)]
+
+
+def logical_windows(ex: Any) -> list[str]:
+    """For every deviation of the execution: 'last completed logical backend operation -> next
+    logical backend operation' of the thread that lost the CPU (names, not line numbers)."""
+    w = ex.world
+    out = []
+    for i, p in enumerate(ex.trace):
+        if not p.chosen:
+            continue
+        t = p.tid
+        if t < 0:
+            out.append("start-order")
+            continue
+        mine = [o for o in w.ops if o[0] == t]
+        last = [o for o in mine if o[1] <= i]
+        nxt = [o for o in mine if o[1] > i]
+        out.append(f"{last[-1][2] if last else 'begin'} -> {nxt[0][2] if nxt else 'end'}")
+    return sorted(out)
